@@ -1057,3 +1057,45 @@ M("c09_retain_without_guard", ["C09", "C06"], ["C09.R3", "C06.R2"], [
         }
 
         drop(core::mem::ManuallyDrop::into_inner(guard));""")])
+
+# ---------------------------------------------------------------- C04
+M("c04_guard_scope_returns_long_lifetime", ["C04"], ["C04.W"], [
+    ("src/bump_scope_guard.rs", """    pub fn scope(&mut self) -> &mut BumpScope<'_, A, S> {""", """    pub fn scope(&mut self) -> &mut BumpScope<'a, A, S> {""")])
+M("c04_bump_stats_static", ["C04"], ["C04.W"], [
+    ("src/bump.rs", """    pub fn stats(&self) -> Stats<'_, A, S> {
+        self.as_scope().stats()""", """    pub fn stats(&self) -> Stats<'static, A, S> {
+        unsafe { core::mem::transmute(self.as_scope().stats()) }""")])
+M("c04_bump_send_without_bound", ["C04"], ["C04.W", "C04.R1"], [
+    ("src/bump.rs", """unsafe impl<A, S> Send for Bump<A, S>
+where
+    A: Send + Allocator,""", """unsafe impl<A, S> Send for Bump<A, S>
+where
+    A: Allocator,""")])
+M("c04_scoped_passes_long_scope", ["C04"], ["C04.W"], [
+    ("src/traits/bump_allocator.rs", """    fn scoped<R>(&mut self, f: impl FnOnce(&mut BumpScope<'_, Self::Allocator, Self::Settings>) -> R) -> R {
+        let mut guard = self.scope_guard();
+        f(guard.scope())
+    }""", """    fn scoped<R>(&mut self, f: impl FnOnce(&mut BumpScope<'static, Self::Allocator, Self::Settings>) -> R) -> R {
+        let mut guard = self.scope_guard();
+        f(unsafe { core::mem::transmute(guard.scope()) })
+    }""")])
+M("c04_borrow_with_settings_drops_min_align_assert", ["C04", "C18"], ["C04.W", "C18.R4"], [
+    ("src/raw_bump.rs", """            assert!(
+                NewS::MIN_ALIGN == S::MIN_ALIGN,
+                "can't change minimum alignment using `Bump(Scope)::borrow_with_settings`"
+            );
+""", "")])
+M("c04_pool_reset_takes_shared_ref", ["C04"], ["C04.W"], [
+    ("src/bump_pool.rs", """    pub fn reset(&mut self) {
+        for bump in self.bumps() {
+            bump.reset();
+        }
+    }""", """    pub fn reset(&self) {
+        for bump in self.lock().iter_mut() {
+            bump.reset();
+        }
+    }""")])
+M("c04_reset_to_start_takes_shared_ref", ["C04"], ["C04.W"], [
+    ("src/bump.rs", """    pub fn reset_to_start(&mut self) {
+        self.raw.reset_to_start();""", """    pub fn reset_to_start(&self) {
+        self.raw.reset_to_start();""")])
